@@ -6,6 +6,7 @@ import numpy as np
 
 from harness.common import bitstr, rowsstr, exc_class, coq_bits, coq_list
 from harness import c20_extra as cx
+from harness import c20_hist as ch
 
 
 def letters(b):
@@ -108,8 +109,16 @@ def run(ctx):
                 'to powers of two) with minimal violations (exactly one anticommuting pair) at every pair of position '
                 'classes (first/middle/last rows, rows next to powers of two) and the same for stabilizer-logical and '
                 'logical-logical pairs; every validate() is repeated on the same object and must not modify its '
-                'operands; nontrivial = k>=2, a corruption that only the third check detects, a 1-d presentation, '
-                'or a code with >= 100 stabilizer rows' % (ctx.pick(8, 10), ctx.pick(600, 620), ctx.pick(513, 1025)))
+                'operands; codes DEFINED BY PAULI STRINGS (BasicCode with varied n_k_d/label, FiveQubitCode, '
+                'SteaneCode, random valid codes n<=%d and their corruptions) under caller histories: the caller '
+                'converts the same strings with pauli_to_bsf (singly, as list/tuple, all at once) or ibsf, overwrites '
+                'its arrays in place (^=, slice/element assignment, writes through hsplit views, row iteration) with '
+                'the operators of a corrupted / repaired / other code, reads them back with bsf_to_pauli, before, '
+                'between and after building and first reading the codes; validate and the published matrices must be '
+                'those of the strings (engine request `basic` = Core/CodeP.code_of); nontrivial = k>=2, a corruption '
+                'that only the third check detects, a 1-d presentation, a caller history, '
+                'or a code with >= 100 stabilizer rows' % (ctx.pick(8, 10), ctx.pick(600, 620), ctx.pick(513, 1025),
+                                                            ctx.pick(8, 10)))
     import time
     tm = {'start': time.time()}
     ctx.props_obligations()
@@ -342,6 +351,14 @@ def run(ctx):
         if shapes:
             one(Sr, X, Z, 'random-stabs-1d', True, shape=rng.choice(shapes))
 
+    # codes defined by Pauli strings under caller histories (the caller converts the same strings with
+    # pt.pauli_to_bsf / ibsf and overwrites ITS arrays in place before, between and after building the codes);
+    # placed before the first FiveQubitCode() / SteaneCode() of this process
+    tm['small impl (matrices)'] = time.time()
+    kern_hist = []
+    ch.run(ctx, req, exp, random_valid, exc_class, kern_hist)
+    tm['caller histories'] = time.time()
+
     # library basic codes, BasicCode defaults
     for code in (FiveQubitCode(), SteaneCode()):
         r = impl_validate(code.stabilizers, code.logical_xs, code.logical_zs)
@@ -404,8 +421,12 @@ def run(ctx):
         def arr(M, f):
             return '(A1 %s)' % coq_bits(M[0].tolist()) if f == '1' else '(A2 %s)' % coq_list([coq_bits(row.tolist()) for row in M])
         items.append('(vres_eqb (validate_nd %s %s %s) V%s)' % (arr(S, sh[0]), arr(X, sh[1]), arr(Z, sh[2]), r))
+    for (C, r) in kern_hist:
+        def ps(g):
+            return coq_list([coq_list(['p' + c for c in s]) for s in g])
+        items.append('(vres_eqb (validate (code_of %s %s %s)) V%s)' % (ps(C[0]), ps(C[1]), ps(C[2]), r))
     text = ('From Coq Require Import List Bool Arith NArith.\nFrom QV Require Import Core.Bits Core.Pauli Core.Symp '
-            'Core.Code Core.CodeNd.\nImport ListNotations.\n'
+            'Core.Code Core.CodeP Core.CodeNd.\nImport ListNotations.\n'
             'Definition vres_eqb (a b : vresult) : bool := match a, b with VOk, VOk | VErrStab, VErrStab | '
             'VErrStabLog, VErrStabLog | VErrSplit, VErrSplit | VErrLog, VErrLog => true | _, _ => false end.\n'
             'Definition checks : list bool :=\n [' + ';\n  '.join(items) + '].\n'
